@@ -28,6 +28,8 @@
 (* Invariants:                                                             *)
 (*   Sound     accepted => the exposed shares are exactly the committed    *)
 (*             shares at the requested position            (C01, C02)      *)
+(*   SoundNd   accepted namespace data has one entry per covering row,     *)
+(*             each with exactly that row's shares of the namespace (C02)  *)
 (*   Complete  the honest response is accepted                             *)
 (*   Cases     prints every reached (square, request, response, verdict)   *)
 (*             as JSON for the driver (always TRUE)                        *)
@@ -519,6 +521,14 @@ View == [pe |-> st.pe, sq |-> st.sq, req |-> st.req, resp |-> st.resp, hon |-> s
 (***************************************************************************)
 (* C01 / C02: whatever is accepted carries exactly the committed shares of the requested position *)
 Sound    == st.acc => DataOf(st.sq, st.req, st.resp) = Committed(st.sq, st.req)
+(* C02, shape clause: accepted namespace data has exactly one entry per row whose namespace   *)
+(* range covers the namespace, entry k carries exactly that row's shares of the namespace,  *)
+(* and an entry without shares (proof of absence) only occurs where the row has none        *)
+SoundNd  == (st.acc /\ st.req.k = "nd") =>
+              LET rows == CoverRows(st.sq, st.req.ns)
+              IN /\ Len(st.resp.rows) = Len(rows)
+                 /\ \A k \in 1..Len(rows) :
+                      Cells(st.sq, st.resp.rows[k].cells) = RowNsCells(st.sq, rows[k], st.req.ns)
 (* the honest answer verifies *)
 Complete == st.hon => st.acc
 (* the state variable acc really is the verdict (guards against a stale EXCEPT) *)
